@@ -680,11 +680,8 @@ def _at(arr, idx, pos):
                 lo, hi = offs[b], offs[b + 1]
                 j = list(idx)
                 j[i] = Br(b, Flat(_iadd(t, mk(-zi(lo)))))
-                sym.CTX.hyps.append(z3.And(zi(lo) <= zi(t), zi(t) < zi(hi)))
-                try:
+                with sym.scope([z3.And(zi(lo) <= zi(t), zi(t) < zi(hi))]):
                     val = _at(arr, j, i)
-                finally:
-                    sym.CTX.hyps.pop()
                 from .bigsum import SumExpr
                 if isinstance(val, SumExpr):
                     raise OutOfReach("conditional over BigSum terms")
@@ -1358,7 +1355,12 @@ def arange(*args):
         # ceil((hi-lo)/st) for positive step
         if not valid(zi(st) > 0):
             raise OutOfReach("arange with non-positive/unknown step")
-        n = sym.int_floordiv(hi - lo + st - 1, st)
+        n = None
+        for q in sym._quotient_candidates(zi(hi - lo), zi(st)):
+            if valid(zi(hi - lo) == q * zi(st)):
+                n = mk(q)          # (hi-lo) is an exact multiple of the step
+        if n is None:
+            n = sym.int_floordiv(hi - lo + st - 1, st)
     st_, m = sym.refute_or_prove(zi(n) >= 0)
     if st_ != "proved":
         raise OutOfReach("arange of possibly negative length")
@@ -1369,7 +1371,12 @@ def arange(*args):
 
 
 def _arange_elem(lo, st, i):
-    r = mk(zi(lo) + zi(i) * zi(st))
+    prod = zi(i) * zi(st)
+    if is_z3(i) and concrete_int(st) is None:
+        # non-linear product digit*step: record its (provable) bounds as hints for later queries
+        sym.add_hint(prod >= 0)
+        sym.add_hint(prod >= zi(i))
+    r = mk(zi(lo) + prod)
     return r.e if isinstance(r, SInt) else r
 
 
@@ -1641,8 +1648,7 @@ def compare(code, spec, what="result", hyps=()):
         hy = [h for c in combo for h in c[1]] + list(hyps)
         sidx = [conv_idx(cd, ix, sd) if fc else ix for sd, ix, cd, fc in zip(spec.dims, raw, code.dims, from_code)]
         cidx = [ix if fc else conv_idx(sd, ix, cd) for sd, ix, cd, fc in zip(spec.dims, raw, code.dims, from_code)]
-        sym.CTX.hyps.extend(hy)
-        try:
+        with sym.scope(hy):
             if not sym.feasible():
                 continue
             tc = code.elem(cidx)
@@ -1656,8 +1662,6 @@ def compare(code, spec, what="result", hyps=()):
             n += 1
             if st != "proved":
                 return st, f"{what}: element differs at index case {sidx}: {detail}", m
-        finally:
-            del sym.CTX.hyps[len(sym.CTX.hyps) - len(hy):]
     return "proved", f"{what}: {n} index classes", None
 
 
